@@ -166,6 +166,7 @@ func sameMapExpr(a, b ssa.Value) bool {
 }
 
 type nameBinding struct {
+	obj    types.Object
 	v      ssa.Value
 	isAddr bool
 }
@@ -630,8 +631,12 @@ func (f *Frame) namesAt(h *ssa.BasicBlock) map[string]nameBinding {
 				if _, isVar := ins.Object().(*types.Var); !isVar {
 					continue
 				}
-				if _, dup := names[id.Name]; !dup {
-					names[id.Name] = nameBinding{v: ins.X, isAddr: ins.IsAddr}
+				if prev, dup := names[id.Name]; !dup {
+					names[id.Name] = nameBinding{v: ins.X, isAddr: ins.IsAddr, obj: ins.Object()}
+				} else if !prev.isAddr && ins.IsAddr && prev.obj == ins.Object() {
+					// the same variable is addressable (it lives in a cell): its current
+					// value is the content of the cell, not the value it was declared with
+					names[id.Name] = nameBinding{v: ins.X, isAddr: true, obj: ins.Object()}
 				}
 			case *ssa.Phi:
 				if ins.Comment != "" {
@@ -640,6 +645,17 @@ func (f *Frame) namesAt(h *ssa.BasicBlock) map[string]nameBinding {
 					}
 				}
 			}
+		}
+	}
+	// a variable that lives in a cell (ssa.Alloc with the variable's name and
+	// declaration position) is named by that cell: its current value is the
+	// cell's content, not the value it was declared with
+	for nm, b := range names {
+		if b.isAddr || b.obj == nil {
+			continue
+		}
+		if a := f.allocOf(nm, b.obj); a != nil {
+			names[nm] = nameBinding{v: a, isAddr: true, obj: b.obj}
 		}
 	}
 	for _, p := range f.fn.Params {
@@ -890,4 +906,16 @@ func (f *Frame) clearMapStep(mv ssa.Value, st State) State {
 	st.Heap = st.Heap.Set(mdn, vc.Define("h."+mdn, nmd))
 	st.Heap = st.Heap.Set(mapSizeComp(ks, vs), vc.Define("h.MS", nms))
 	return st
+}
+
+// allocOf finds the cell of a named local variable, if it has one.
+func (f *Frame) allocOf(name string, obj types.Object) *ssa.Alloc {
+	for _, b := range f.fn.Blocks {
+		for _, ins := range b.Instrs {
+			if a, ok := ins.(*ssa.Alloc); ok && a.Comment == name && a.Pos() == obj.Pos() {
+				return a
+			}
+		}
+	}
+	return nil
 }
